@@ -23,7 +23,28 @@ import (
 // meaning of the call. The helper itself stays in the tree. If the result does not type-check
 // (an import missing in the caller's file, a name clash) the tree is analysed as it is.
 
-func (p *Prog) inlineOverlay(overlay map[string][]byte) (map[string][]byte, []string) {
+// declKey names a function declaration independently of the type checker (file|Recv.Name), so that a caller in which the
+// flat substitution did not type-check can be found again in the next attempt.
+func declKey(file string, fd *ast.FuncDecl) string {
+	name := fd.Name.Name
+	if fd.Recv != nil && len(fd.Recv.List) == 1 {
+		t := fd.Recv.List[0].Type
+		if st, ok := t.(*ast.StarExpr); ok {
+			t = st.X
+		}
+		if ix, ok := t.(*ast.IndexExpr); ok {
+			t = ix.X
+		}
+		if id, ok := t.(*ast.Ident); ok {
+			name = id.Name + "." + name
+		}
+	}
+	return file + "|" + name
+}
+
+// inlineOverlay: forceBlock names the callers (declKey) in which every substitution takes the block form; allBlock asks
+// for the block form everywhere.
+func (p *Prog) inlineOverlay(overlay map[string][]byte, forceBlock map[string]bool, allBlock bool) (map[string][]byte, []string) {
 	ref := anchorSigs
 	if len(ref) == 0 {
 		return nil, nil
@@ -52,7 +73,7 @@ func (p *Prog) inlineOverlay(overlay map[string][]byte) (map[string][]byte, []st
 		return inCur && !inRef
 	}
 	inlinable := func(fd *ast.FuncDecl) bool {
-		if fd == nil || fd.Body == nil || fd.Type.Results != nil && len(fd.Type.Results.List) > 0 || fd.Type.TypeParams != nil {
+		if fd == nil || fd.Body == nil || fd.Type.TypeParams != nil {
 			return false
 		}
 		if fd.Type.Params != nil {
@@ -69,15 +90,10 @@ func (p *Prog) inlineOverlay(overlay map[string][]byte) (map[string][]byte, []st
 			return false
 		}
 		ok := true
-		n := len(fd.Body.List)
 		ast.Inspect(fd.Body, func(m ast.Node) bool {
 			switch x := m.(type) {
 			case *ast.FuncLit:
 				return false
-			case *ast.ReturnStmt:
-				if n == 0 || ast.Node(fd.Body.List[n-1]) != m || len(x.Results) > 0 {
-					ok = false
-				}
 			case *ast.DeferStmt, *ast.GoStmt, *ast.LabeledStmt:
 				ok = false
 			case *ast.BranchStmt:
@@ -139,10 +155,11 @@ func (p *Prog) inlineOverlay(overlay map[string][]byte) (map[string][]byte, []st
 	type edit struct {
 		off, n int
 		text   string
+		fn     *types.Func // the helper substituted here (nil: a removal)
+		note   string
 	}
 	edits := map[string][]edit{}
-	var notes []string
-	inlinedSites := map[*types.Func]int{}
+	tmpN := 0
 	for _, pkg := range p.Pkgs {
 		info := pkg.TypesInfo
 		qual := func(other *types.Package) string {
@@ -157,12 +174,15 @@ func (p *Prog) inlineOverlay(overlay map[string][]byte) (map[string][]byte, []st
 				if !ok || caller.Body == nil {
 					continue
 				}
+				done := map[ast.Stmt]bool{} // one substitution per statement and round
+				var stack []ast.Node
 				ast.Inspect(caller.Body, func(m ast.Node) bool {
-					es, ok := m.(*ast.ExprStmt)
-					if !ok {
+					if m == nil {
+						stack = stack[:len(stack)-1]
 						return true
 					}
-					call, ok := es.X.(*ast.CallExpr)
+					stack = append(stack, m)
+					call, ok := m.(*ast.CallExpr)
 					if !ok || call.Ellipsis.IsValid() {
 						return true
 					}
@@ -178,8 +198,70 @@ func (p *Prog) inlineOverlay(overlay map[string][]byte) (map[string][]byte, []st
 					if sig.Params().Len() != len(call.Args) {
 						return true
 					}
+					// the statement the call belongs to: the nearest enclosing statement, which must be an element of a statement list
+					// (so that the substituted body can stand in front of it), reached without crossing a function literal or the
+					// right-hand side of && / || (evaluated conditionally); a loop condition is evaluated more than once
+					si := -1
+					for i := len(stack) - 2; i >= 0; i-- {
+						if _, isStmt := stack[i].(ast.Stmt); isStmt {
+							si = i
+							break
+						}
+						if _, isLit := stack[i].(*ast.FuncLit); isLit {
+							return true
+						}
+						if be, isBin := stack[i].(*ast.BinaryExpr); isBin && (be.Op == token.LAND || be.Op == token.LOR) && ast.Node(be.Y) == stack[i+1] {
+							return true
+						}
+					}
+					if si < 1 {
+						return true
+					}
+					stmt := stack[si].(ast.Stmt)
+					if done[stmt] {
+						return true
+					}
+					switch st := stmt.(type) {
+					case *ast.ForStmt, *ast.LabeledStmt, *ast.SelectStmt, *ast.BlockStmt, *ast.CaseClause, *ast.CommClause:
+						return true
+					case *ast.IfStmt:
+						if !containsNode(st.Cond, call) {
+							return true
+						}
+					case *ast.SwitchStmt:
+						if st.Tag == nil || !containsNode(st.Tag, call) {
+							return true
+						}
+					case *ast.RangeStmt:
+						if !containsNode(st.X, call) {
+							return true
+						}
+					case *ast.TypeSwitchStmt:
+						return true
+					}
+					var list []ast.Stmt
+					switch par := stack[si-1].(type) {
+					case *ast.BlockStmt:
+						list = par.List
+					case *ast.CaseClause:
+						list = par.Body
+					case *ast.CommClause:
+						list = par.Body
+					}
+					member := false
+					for _, s := range list {
+						if s == stmt {
+							member = true
+						}
+					}
+					if !member {
+						return true
+					}
+					nres := sig.Results().Len()
+					if es, isExpr := stmt.(*ast.ExprStmt); nres == 0 && !(isExpr && ast.Unparen(es.X) == ast.Expr(call)) {
+						return true
+					}
 					var b strings.Builder
-					b.WriteString("{\n")
 					var bound []string
 					bind := func(name string, t types.Type, arg string) bool {
 						if arg == "" {
@@ -197,12 +279,255 @@ func (p *Prog) inlineOverlay(overlay map[string][]byte) (map[string][]byte, []st
 						}
 						if arg == name {
 							// the caller's variable of the same name: no binding needed (and the rules keep seeing ONE object)
-							bound = append(bound, name)
 							return true
 						}
 						fmt.Fprintf(&b, "var %s %s = %s\n_ = %s\n", name, types.TypeString(t, qual), arg, name)
 						bound = append(bound, name)
 						return true
+					}
+					// temporaries that carry the results out of the block
+					tmpN++
+					var temps []string
+					for i := 0; i < nres; i++ {
+						tn := fmt.Sprintf("inl%dr%d", tmpN, i)
+						temps = append(temps, tn)
+						fmt.Fprintf(&b, "var %s %s\n_ = %s\n", tn, types.TypeString(sig.Results().At(i).Type(), qual), tn)
+					}
+					// returns of the helper (outside function literals)
+					var rets []*ast.ReturnStmt
+					ast.Inspect(fd.Body, func(q ast.Node) bool {
+						switch x := q.(type) {
+						case *ast.FuncLit:
+							return false
+						case *ast.ReturnStmt:
+							rets = append(rets, x)
+						}
+						return true
+					})
+					nb := len(fd.Body.List)
+					trailing := nb > 0 && len(rets) > 0 && ast.Node(fd.Body.List[nb-1]) == ast.Node(rets[len(rets)-1])
+					wrap := len(rets) > 1 || len(rets) == 1 && !trailing
+					label := fmt.Sprintf("inl%dL", tmpN)
+					callerFile := p.Fset.Position(caller.Pos()).Filename
+					flat := !wrap && !allBlock && !forceBlock[declKey(callerFile, caller)]
+					// a named result that the statement assigns to under the same name (err = helper() with result err) is the
+					// caller's variable itself: it is set to its zero value instead of being declared
+					unified := map[string]bool{}
+					direct := false // block form in which the named results ARE the variables the statement assigns
+					var hoist []string
+					if as, isAssign := stmt.(*ast.AssignStmt); isAssign && (as.Tok == token.ASSIGN || as.Tok == token.DEFINE) && len(as.Rhs) == 1 && ast.Unparen(as.Rhs[0]) == ast.Expr(call) && fd.Type.Results != nil {
+						var rn []string
+						for _, fl := range fd.Type.Results.List {
+							for _, nm := range fl.Names {
+								rn = append(rn, nm.Name)
+							}
+						}
+						if len(rn) == len(as.Lhs) {
+							all := true
+							for i, l := range as.Lhs {
+								id, isId := l.(*ast.Ident)
+								if !isId || id.Name != rn[i] || id.Name == "_" {
+									all = false
+									continue
+								}
+								if as.Tok == token.DEFINE && info.Defs[id] != nil {
+									// a new variable of the caller: declared in front of the block form
+									hoist = append(hoist, fmt.Sprintf("var %s %s\n_ = %s\n", id.Name, types.TypeString(sig.Results().At(i).Type(), qual), id.Name))
+									continue
+								}
+								unified[id.Name] = true
+								hoist = append(hoist, fmt.Sprintf("%s = %s\n", id.Name, zeroText(sig.Results().At(i).Type(), qual)))
+							}
+							direct = all && !flat
+							if !flat && !direct {
+								unified = map[string]bool{}
+							}
+						}
+					}
+					if flat {
+						// the flat form must not declare a name that is visible in the caller at this point: it would shadow it
+						// for the rest of the block
+						declared := map[string]bool{}
+						if fd.Recv != nil {
+							if sel, ok := ast.Unparen(call.Fun).(*ast.SelectorExpr); ok && text(sel.X) != fd.Recv.List[0].Names[0].Name {
+								declared[fd.Recv.List[0].Names[0].Name] = true
+							}
+						}
+						pi := 0
+						for _, fl := range fd.Type.Params.List {
+							for _, nm := range fl.Names {
+								if pi < len(call.Args) && text(call.Args[pi]) != nm.Name {
+									declared[nm.Name] = true
+								}
+								pi++
+							}
+						}
+						if fd.Type.Results != nil {
+							for _, fl := range fd.Type.Results.List {
+								for _, nm := range fl.Names {
+									if !unified[nm.Name] {
+										declared[nm.Name] = true
+									}
+								}
+							}
+						}
+						for _, bs := range fd.Body.List {
+							switch x := bs.(type) {
+							case *ast.AssignStmt:
+								if x.Tok == token.DEFINE {
+									for _, l := range x.Lhs {
+										if id, isId := l.(*ast.Ident); isId {
+											declared[id.Name] = true
+										}
+									}
+								}
+							case *ast.DeclStmt:
+								if gd, isGen := x.Decl.(*ast.GenDecl); isGen {
+									for _, sp := range gd.Specs {
+										if vs, isVal := sp.(*ast.ValueSpec); isVal {
+											for _, nm := range vs.Names {
+												declared[nm.Name] = true
+											}
+										}
+									}
+								}
+							}
+						}
+						delete(declared, "_")
+						// names the statement itself defines from the call are new by definition
+						if as, isAssign := stmt.(*ast.AssignStmt); isAssign && as.Tok == token.DEFINE {
+							for _, l := range as.Lhs {
+								if id, isId := l.(*ast.Ident); isId && info.Defs[id] != nil {
+									delete(declared, id.Name)
+								}
+							}
+						}
+						if inner := pkg.Types.Scope().Innermost(stmt.Pos()); inner != nil {
+							for name := range declared {
+								if sc, obj := inner.LookupParent(name, stmt.Pos()); obj != nil && sc != types.Universe && sc != pkg.Types.Scope() && sc.Parent() != pkg.Types.Scope() {
+									flat = false
+								}
+							}
+						}
+					}
+					// block form, unnamed results: `data, ok := helper()` where the helper builds its results in locals of the same
+					// names (data, err := read(); ...; return data, true). Those locals, defined at the top level of the helper's
+					// body with the very types of the results, become the caller's variables: the inverse of the extraction
+					directU := false
+					type bodyRep struct {
+						a, e int
+						s    string
+					}
+					var defReps []bodyRep
+					if as, isAssign := stmt.(*ast.AssignStmt); !flat && !direct && nres > 0 && isAssign && (as.Tok == token.ASSIGN || as.Tok == token.DEFINE) && len(as.Rhs) == 1 && ast.Unparen(as.Rhs[0]) == ast.Expr(call) && len(as.Lhs) == nres {
+						targets := map[string]int{}
+						okU := true
+						var hoistU, names []string
+						for i, l := range as.Lhs {
+							id, isId := l.(*ast.Ident)
+							if !isId || id.Name == "_" {
+								okU = false
+								break
+							}
+							targets[id.Name] = i
+							names = append(names, id.Name)
+							if as.Tok == token.DEFINE && info.Defs[id] != nil {
+								hoistU = append(hoistU, fmt.Sprintf("var %s %s\n_ = %s\n", id.Name, types.TypeString(sig.Results().At(i).Type(), qual), id.Name))
+							} else {
+								hoistU = append(hoistU, fmt.Sprintf("%s = %s\n", id.Name, zeroText(sig.Results().At(i).Type(), qual)))
+							}
+						}
+						if okU {
+							topDefine := map[*ast.Ident]*ast.AssignStmt{}
+							for _, bs := range fd.Body.List {
+								if x, isAs := bs.(*ast.AssignStmt); isAs && x.Tok == token.DEFINE {
+									for _, l := range x.Lhs {
+										if id, isId := l.(*ast.Ident); isId {
+											topDefine[id] = x
+										}
+									}
+								}
+							}
+							rew := map[*ast.AssignStmt]bool{}
+							ast.Inspect(fd, func(q ast.Node) bool {
+								id, isId := q.(*ast.Ident)
+								if !isId {
+									return true
+								}
+								obj, isVar := info.Defs[id].(*types.Var)
+								if !isVar || obj == nil {
+									return true
+								}
+								if i, hit := targets[id.Name]; hit {
+									if x := topDefine[id]; x != nil && types.Identical(obj.Type(), sig.Results().At(i).Type()) {
+										rew[x] = true
+									} else {
+										okU = false
+									}
+								}
+								return true
+							})
+							if okU {
+								hsrcFile := p.Fset.Position(fd.Pos()).Filename
+								hsrc := srcOf(hsrcFile)
+								for x := range rew {
+									var pre strings.Builder
+									for _, l := range x.Lhs {
+										if id, isId := l.(*ast.Ident); isId && id.Name != "_" {
+											if obj := info.Defs[id]; obj != nil {
+												if _, hit := targets[id.Name]; !hit {
+													fmt.Fprintf(&pre, "var %s %s\n", id.Name, types.TypeString(obj.Type(), qual))
+												}
+											}
+										}
+									}
+									xa, xe, tk := p.Fset.Position(x.Pos()).Offset, p.Fset.Position(x.End()).Offset, p.Fset.Position(x.TokPos).Offset
+									if hsrc == nil || xe > len(hsrc) || tk < xa || tk+2 > xe {
+										okU = false
+										break
+									}
+									defReps = append(defReps, bodyRep{xa, xe, pre.String() + string(hsrc[xa:tk]) + "=" + string(hsrc[tk+2:xe])})
+								}
+							}
+						}
+						if okU {
+							directU = true
+							b.Reset()
+							temps = names
+							for _, h := range hoistU {
+								b.WriteString(h)
+							}
+						}
+					}
+					if direct && !flat {
+						b.Reset()
+						temps = nil
+						for _, h := range hoist {
+							b.WriteString(h)
+						}
+					}
+					if !flat && !direct && !directU && nres > 0 {
+						// what is left is the block form with temporaries, which cuts the identity of the value the rules follow (and
+						// the rules have means of their own for boolean helpers in conditions and for results that are assigned or
+						// returned): it is used only where the value goes straight into an argument of another call
+						parentCall, isArg := stack[len(stack)-2].(*ast.CallExpr)
+						if !isArg || ast.Unparen(parentCall.Fun) == ast.Expr(call) {
+							return true
+						}
+					}
+					if flat {
+						// the flat form: bindings and body stand in the caller's own statement list, the value of the trailing return
+						// takes the place of the call - the exact inverse of "extract function". It is tried first; where it does not
+						// type-check (a name of the helper meets the same name in the caller) the block form below is used
+						b.Reset()
+						temps = nil
+					} else if wrap {
+						fmt.Fprintf(&b, "%s:\nswitch {\ndefault:\n", label)
+					} else {
+						b.WriteString("{\n")
+					}
+					if flat && fd.Recv != nil {
+						// a receiver expression that is not a plain name is evaluated once, under the receiver's name
 					}
 					if fd.Recv != nil {
 						sel, ok := ast.Unparen(call.Fun).(*ast.SelectorExpr)
@@ -241,25 +566,156 @@ func (p *Prog) inlineOverlay(overlay map[string][]byte) (map[string][]byte, []st
 					if !okAll {
 						return true
 					}
-					body := fd.Body.List
-					if n := len(body); n > 0 {
-						if _, isRet := body[n-1].(*ast.ReturnStmt); isRet {
-							body = body[:n-1]
+					// named results are locals of the block
+					var named []string
+					if fd.Type.Results != nil {
+						for _, fl := range fd.Type.Results.List {
+							for _, nm := range fl.Names {
+								named = append(named, nm.Name)
+							}
 						}
 					}
-					for _, s := range body {
-						t := text(s)
-						if t == "" {
+					if len(named) > 0 {
+						if len(named) != nres {
 							return true
 						}
-						b.WriteString(t)
-						b.WriteString("\n")
+						for i, nm := range named {
+							if nm == "_" {
+								if flat {
+									return true
+								}
+								named[i] = temps[i]
+								continue
+							}
+							if direct && !flat {
+								continue // the caller's own variables, declared or zeroed in front of the block
+							}
+							if flat && unified[nm] {
+								fmt.Fprintf(&b, "%s = %s\n", nm, zeroText(sig.Results().At(i).Type(), qual))
+								continue
+							}
+							fmt.Fprintf(&b, "var %s %s\n_ = %s\n", nm, types.TypeString(sig.Results().At(i).Type(), qual), nm)
+						}
 					}
-					b.WriteString("}")
-					a, e := p.Fset.Position(es.Pos()), p.Fset.Position(es.End())
-					edits[a.Filename] = append(edits[a.Filename], edit{a.Offset, e.Offset - a.Offset, b.String()})
-					inlinedSites[f]++
-					notes = append(notes, fmt.Sprintf("%s inlined into %s", p.FuncName(f), p.DeclName(caller)))
+					// the body, each return replaced by an assignment to the temporaries (and a jump behind the body)
+					bodyStart, bodyEnd := p.Fset.Position(fd.Body.Lbrace).Offset+1, p.Fset.Position(fd.Body.Rbrace).Offset
+					src := srcOf(p.Fset.Position(fd.Pos()).Filename)
+					if src == nil || bodyEnd > len(src) || bodyStart > bodyEnd {
+						return true
+					}
+					body := string(src[bodyStart:bodyEnd])
+					bad := nres > 0 && len(rets) == 0
+					var flatVals []string
+					var reps []bodyRep
+					for _, dr := range defReps {
+						reps = append(reps, bodyRep{dr.a - bodyStart, dr.e - bodyStart, dr.s})
+					}
+					for k := len(rets) - 1; k >= 0; k-- {
+						rs := rets[k]
+						a, e := p.Fset.Position(rs.Pos()).Offset-bodyStart, p.Fset.Position(rs.End()).Offset-bodyStart
+						if a < 0 || e > len(body) {
+							bad = true
+							break
+						}
+						if flat {
+							// the one trailing return: its values take the place of the call
+							switch {
+							case nres == 0:
+							case len(rs.Results) == 0 && len(named) == nres:
+								flatVals = append(flatVals, named...)
+							case len(rs.Results) == nres || len(rs.Results) == 1:
+								for _, rx := range rs.Results {
+									t := text(rx)
+									switch ast.Unparen(rx).(type) {
+									case *ast.Ident, *ast.BasicLit, *ast.SelectorExpr, *ast.CallExpr, *ast.IndexExpr, *ast.CompositeLit:
+									default:
+										t = "(" + t + ")"
+									}
+									flatVals = append(flatVals, t)
+								}
+							default:
+								bad = true
+							}
+							body = body[:a] + body[e:]
+							continue
+						}
+						// a return is always an element of a statement list: two statements can take its place
+						var rep strings.Builder
+						switch {
+						case nres == 0:
+						case direct && len(rs.Results) == 0:
+						case direct && len(rs.Results) == nres:
+							var vals []string
+							for _, rx := range rs.Results {
+								vals = append(vals, text(rx))
+							}
+							fmt.Fprintf(&rep, "%s = %s; ", strings.Join(named, ", "), strings.Join(vals, ", "))
+						case direct:
+							bad = true
+						case len(rs.Results) == nres:
+							var vals []string
+							for _, rx := range rs.Results {
+								vals = append(vals, text(rx))
+							}
+							fmt.Fprintf(&rep, "%s = %s; ", strings.Join(temps, ", "), strings.Join(vals, ", "))
+						case len(rs.Results) == 0 && len(named) == nres:
+							fmt.Fprintf(&rep, "%s = %s; ", strings.Join(temps, ", "), strings.Join(named, ", "))
+						case len(rs.Results) == 1:
+							// return g(): a call with several results
+							fmt.Fprintf(&rep, "%s = %s; ", strings.Join(temps, ", "), text(rs.Results[0]))
+						default:
+							bad = true
+						}
+						if wrap && !(trailing && k == len(rets)-1) {
+							fmt.Fprintf(&rep, "break %s", label)
+						}
+						reps = append(reps, bodyRep{a, e, rep.String()})
+					}
+					if !flat {
+						sort.Slice(reps, func(i, j int) bool { return reps[i].a > reps[j].a })
+						for _, rp := range reps {
+							if rp.a < 0 || rp.e > len(body) || rp.a > rp.e {
+								bad = true
+								break
+							}
+							body = body[:rp.a] + rp.s + body[rp.e:]
+						}
+					}
+					if bad {
+						return true
+					}
+					b.WriteString(body)
+					if flat {
+						b.WriteString("\n")
+						temps = flatVals
+					} else {
+						b.WriteString("\n}\n")
+					}
+					// the statement itself, the call replaced by the temporaries (flat form: by the returned expressions)
+					sa, se := p.Fset.Position(stmt.Pos()), p.Fset.Position(stmt.End())
+					ca, ce := p.Fset.Position(call.Pos()).Offset, p.Fset.Position(call.End()).Offset
+					csrc := srcOf(sa.Filename)
+					if csrc == nil || se.Offset > len(csrc) || ca < sa.Offset || ce > se.Offset {
+						return true
+					}
+					if nres > 0 && !(direct && !flat) && !directU {
+						same := false
+						if as, isAssign := stmt.(*ast.AssignStmt); flat && isAssign && len(as.Rhs) == 1 && ast.Unparen(as.Rhs[0]) == ast.Expr(call) && len(as.Lhs) == len(temps) {
+							// name := helper() where the helper returns its own `name`: the body has defined it already
+							same = true
+							for i, l := range as.Lhs {
+								if text(l) != temps[i] {
+									same = false
+								}
+							}
+						}
+						if !same {
+							b.WriteString(string(csrc[sa.Offset:ca]) + strings.Join(temps, ", ") + string(csrc[ce:se.Offset]))
+						}
+					}
+					done[stmt] = true
+					edits[sa.Filename] = append(edits[sa.Filename], edit{sa.Offset, se.Offset - sa.Offset, b.String(), f,
+						fmt.Sprintf("%s inlined into %s", p.FuncName(f), p.DeclName(caller))})
 					return true
 				})
 			}
@@ -267,6 +723,23 @@ func (p *Prog) inlineOverlay(overlay map[string][]byte) (map[string][]byte, []st
 	}
 	if len(edits) == 0 {
 		return nil, nil
+	}
+	// which substitutions can be applied: an edit that overlaps one further down the file waits for the next round
+	var notes []string
+	inlinedSites := map[*types.Func]int{}
+	applied := map[string][]edit{}
+	for file, es := range edits {
+		sort.Slice(es, func(i, j int) bool { return es[i].off > es[j].off })
+		last := int(^uint(0) >> 1)
+		for _, e := range es {
+			if e.off+e.n > last {
+				continue
+			}
+			last = e.off
+			applied[file] = append(applied[file], e)
+			inlinedSites[e.fn]++
+			notes = append(notes, e.note)
+		}
 	}
 	// a helper whose every use has been substituted is taken out of the tree: left behind it would be a function
 	// without callers, and the rules that judge a helper by its callers (L1) would judge it unguarded
@@ -291,14 +764,14 @@ func (p *Prog) inlineOverlay(overlay map[string][]byte) (map[string][]byte, []st
 				start = fd.Doc.Pos()
 			}
 			a, e := p.Fset.Position(start), p.Fset.Position(fd.End())
-			edits[a.Filename] = append(edits[a.Filename], edit{a.Offset, e.Offset - a.Offset, ""})
+			applied[a.Filename] = append(applied[a.Filename], edit{off: a.Offset, n: e.Offset - a.Offset})
 		}
 	}
 	out := map[string][]byte{}
 	for k, v := range overlay {
 		out[k] = v
 	}
-	for file, es := range edits {
+	for file, es := range applied {
 		src := srcOf(file)
 		if src == nil {
 			return nil, nil
@@ -307,7 +780,7 @@ func (p *Prog) inlineOverlay(overlay map[string][]byte) (map[string][]byte, []st
 		last := len(src) + 1
 		for _, e := range es {
 			if e.off+e.n > last || e.off+e.n > len(src) {
-				continue // nested inside an edit already applied
+				continue // a substitution inside a helper that is being removed
 			}
 			last = e.off
 			src = append(append(append([]byte{}, src[:e.off]...), e.text...), src[e.off+e.n:]...)
@@ -316,6 +789,24 @@ func (p *Prog) inlineOverlay(overlay map[string][]byte) (map[string][]byte, []st
 	}
 	sort.Strings(notes)
 	return out, notes
+}
+
+// zeroText: the zero value of t, spelled as an expression.
+func zeroText(t types.Type, qual types.Qualifier) string {
+	switch u := t.Underlying().(type) {
+	case *types.Pointer, *types.Interface, *types.Slice, *types.Map, *types.Chan, *types.Signature:
+		return "nil"
+	case *types.Basic:
+		switch {
+		case u.Info()&types.IsBoolean != 0:
+			return "false"
+		case u.Info()&types.IsString != 0:
+			return `""`
+		case u.Info()&types.IsNumeric != 0:
+			return "0"
+		}
+	}
+	return "*new(" + types.TypeString(t, qual) + ")"
 }
 
 func mentionsWord(s, w string) bool {
